@@ -7,7 +7,7 @@ cd /verif || exit 1
 ids="C01 C03 C04 C06 C08 C09 C10 C11 C12 C13 C14 C15 C16 C17 C18 C19 C20"
 fail=0
 # four harness builds at a time (each is a single large translation unit)
-echo $ids | tr ' ' '\n' | xargs -P 4 -I{} sh -c './check {} --build-only >/dev/null 2>&1 || echo "build of {} failed"' | tee /tmp/.verif_setup.$$ 
-if [ -s /tmp/.verif_setup.$$ ]; then fail=1; fi
-rm -f /tmp/.verif_setup.$$
+echo $ids | tr ' ' '\n' | xargs -P 4 -I{} sh -c './check {} --build-only >/dev/null 2>&1 || echo "build of {} failed"' | tee /verif/build/.setup.$$ 
+if [ -s /verif/build/.setup.$$ ]; then fail=1; fi
+rm -f /verif/build/.setup.$$
 exit $fail
